@@ -37,7 +37,8 @@ where
 
       source.inner_subscribe(sctl.new_observer(
         move |_, _| {
-          if let Some(start_time) = *start_time_next.read().unwrap() {
+          let start_time = *start_time_next.read().unwrap();
+          if let Some(start_time) = start_time {
             sctl_next.sink_next(start_time.elapsed());
           }
           *start_time_next.write().unwrap() = Some(Instant::now());
